@@ -235,6 +235,18 @@ def r_geo(ctx, a):
         outs[sparse] = out
         for (idx, col), (_, ocol) in zip(util.columns(T, 0), util.columns(out, 0)):
             ctx.corr(f'get_geopotential_diff sparse={sparse}', ocol, ctx.model.call(10, [K, sparse], [ls, col, [R]]), scale=scale)
+    # leading batch / time / ensemble axes in front of the level axis (level axis = -3), incl. batch == layers
+    for lead in ((2,), (K,), (2, 3)):
+        Tb = np.stack([T * (1 + 0.125 * i) for i in range(int(np.prod(lead)))]).reshape(lead + T.shape)
+        for sparse in (0,):
+            ob = np.asarray(pe.get_geopotential_diff(jnp.asarray(Tb), c, R, method='dense'))
+            ok_shape = ob.shape == Tb.shape
+            ctx.oracle('get_geopotential_diff keeps the shape of a batched temperature %s' % (list(lead),), ok_shape,
+                       {'got': list(ob.shape), 'want': list(Tb.shape)})
+            if ok_shape:
+                want = np.stack([np.asarray(pe.get_geopotential_diff(jnp.asarray(t), c, R, method='dense'))
+                                 for t in Tb.reshape((-1,) + T.shape)]).reshape(Tb.shape)
+                ctx.oracle_close('get_geopotential_diff acts level-wise on each batch member %s' % (list(lead),), ob, want, scale=scale * 4)
     trap = np.asarray(sc.cumulative_log_sigma_integral(jnp.asarray(T), c, axis=0, downward=False))
     ctx.oracle_close('geopotential = R * trapezoid in log sigma', outs[0], R * trap, scale=scale)
     ctx.oracle_close('geopotential dense = cumulative-sum form', outs[0], outs[1], scale=scale)
